@@ -11,14 +11,15 @@ from .common import hx, unhx
 
 ID = 'C07'
 GEN_DEPS = []
-RULE = ('37 handler signatures covering every IntoHandler shape (one param of each of the 10 integer types, String, &str, Cow, two-param tuples, a param under a param mount, Query, JSON, Option<JSON>, URLEncoded, Text, param+Query+JSON, two optional bodies) x '
+RULE = ('39 handler signatures covering every IntoHandler shape (one param of each of the 10 integer types, String, &str, Cow, two-param tuples, a param under a param mount, Query, JSON, Option<JSON>, URLEncoded, Text, Multipart, Option<Multipart>, param+Query+JSON, two optional bodies) x '
         'requests: segments with digits plus garbage, signs, leading zeros, values at and beyond every width, percent-encoded and non-UTF-8 segments, matching / near-miss / mismatching / missing Content-Type, '
         'valid and invalid bodies and queries; non-trivial = a boundary numeral, an escape in a segment, a near-miss media type or an invalid body')
 ASSUMPTIONS = ['with mounts the i-th declared parameter is the i-th capture of the full route (the repository\'s own test check_path_params_counted_accumulatedly)',
                'an extractor error on a path param answers 500, a body/query error 400: both are "an error response", the handler does not run',
-               'Multipart extraction is covered by C10 through the same gate']
+               'Multipart: forms for one struct (String, Option<File>, Vec<File>) built here, so what a body denotes is known by construction; the byte-level grammar of multipart bodies is C10']
 INT = {0: ('u8', 8, False), 1: ('i8', 8, True), 2: ('u16', 16, False), 3: ('i16', 16, True), 4: ('u32', 32, False), 5: ('i32', 32, True), 6: ('u64', 64, False), 7: ('i64', 64, True), 8: ('usize', 64, False), 9: ('isize', 64, True)}
-MIME = {'json': 'application/json', 'form': 'application/x-www-form-urlencoded', 'text': 'text/plain'}
+MIME = {'json': 'application/json', 'form': 'application/x-www-form-urlencoded', 'text': 'text/plain', 'multi': 'multipart/form-data'}
+_MULTI = {}          # multipart body -> the echo of the form it was built from (None: the form does not fit the handler's struct)
 
 
 def pct(b): return re.sub(rb'%([0-9A-Fa-f]{2})', lambda m: bytes([int(m.group(1), 16)]), b)
@@ -45,12 +46,45 @@ def body_for(rng, kind):
                            b'{"x":1,"s":"a"', b'', b'[1,2]', b'{"x":1.0,"s":"a"}', b' {"x" : 7 , "s" : "sp" } ', b'{"x":1,"s":"a"}x', b'{"x":true,"s":"a"}', b'{"x":1,"s":null}'])
     if kind == 'form':
         return rng.choice([b'x=1&s=a', b's=%E3%81%82&x=-5', b'x=2147483647&s=&zz=1', b'x=2147483648&s=a', b'x=1', b'x=a&s=b', b'', b'x=1&s=a&x=2', b'x=+7&s=a%20b', b'x=1&s=%FF', b'x=1=2&s=a', b'x=1&&s=a'])
+    if kind == 'multi': return multi_body(rng)[0]
     return rng.choice([b'hello', b'', '日本'.encode(), b'\xff\xfe', b'a\r\nb', b'x' * 500])
 
 
-def ctype_for(rng, kind):
+def multi_body(rng):
+    """a multipart body built from a form for `struct { title: String, icon: Option<File>, pics: Vec<File> }`; what it denotes is known by construction"""
+    from . import c10
+    boundary = rng.choice(['XbX', '----WebKitFormBoundary7MA4YWxkTrZu0gW', 'b'])
+    def file(i): return (rng.choice(['a.bin', 'pic 1.png', 'empty.txt', 'x;y=z.pdf']) + str(i), rng.choice(c10.MIMES), rng.choice([b'', b'', c10.content_gen(rng, boundary)]))
+    title = c10.text_gen(rng)
+    parts, ok = [('title', None, None, title.encode())], True
+    icon = None
+    k = rng.random()
+    if k < 0.5: icon = file(0); parts.append(('icon',) + icon)
+    elif k < 0.7: parts.append(('icon', '', 'application/octet-stream', b''))          # a file input left unselected, as browsers send it
+    pics = [file(i + 1) for i in range(rng.choice([0, 1, 2, 3]))]
+    parts += [('pics',) + f for f in pics] if pics else [('pics', '', 'application/octet-stream', b'')]
+    m = rng.random()
+    if m < 0.08: parts = parts[1:]; ok = False                                            # no title
+    elif m < 0.14: parts[0] = ('title', 't.bin', 'image/png', b'xx'); ok = False          # a file where the text is declared
+    elif m < 0.2 and icon: parts.insert(2, ('icon',) + file(9)); ok = False               # two files for the single file field
+    while any(('--' + boundary).encode() in p[3] for p in parts): boundary += 'Zq9'
+    if m >= 0.2 and m < 0.3:          # fields in another order, the files of one name kept together and in order
+        order = rng.sample(['title', 'icon', 'pics'], 3)
+        parts = [p for n in order for p in parts if p[0] == n]
+    body = c10.encode(boundary, parts)
+    ef = lambda f: '%s/%s/%s' % (hx(f[0]), hx(f[1]), f[2].hex())
+    _MULTI[body] = ('t=%s;i=%s;p=%s' % (hx(title), ef(icon) if icon else '-', ','.join(ef(f) for f in pics))).encode() if ok else None
+    return body, boundary
+
+
+def ctype_for(rng, kind, boundary='XbX'):
     m = MIME[kind]
     r = rng.random()
+    if kind == 'multi':
+        if r < 0.7: return m + '; boundary=' + boundary
+        if r < 0.8: return m + rng.choice(['x', '-data', '2']) + '; boundary=' + boundary
+        if r < 0.9: return rng.choice(['multipart/mixed; boundary=' + boundary, 'application/json', 'text/plain', 'multipart/form-dat; boundary=' + boundary])
+        return None
     if r < 0.5: return m
     if r < 0.65: return m + rng.choice(['; charset=utf-8', ';charset=UTF-8', ' ; q=1', '; boundary=x'])
     if r < 0.8: return m + rng.choice(['x', 'ly', '-patch+json', '+xml', '/x', '2'])
@@ -130,6 +164,7 @@ def decode_item(kind, data):
     if kind == 'text':
         try: data.decode('utf-8'); return data
         except UnicodeDecodeError: return None
+    if kind == 'multi': return _MULTI.get(data)          # any other body (JSON, pairs, text) is not a multipart form
     if kind == 'query':
         v = dec_kv(data, [('a', 'u32'), ('b', 'optstring')])
         return echo_q(v) if v is not None else None
@@ -142,7 +177,7 @@ LAY = {1: [('query', False)], 2: [('query', False), ('json', False)], 3: [('quer
 
 
 def mk(rng, sig=None):
-    sig = rng.choice(list(range(0, 21)) + [22, 23] + list(COMBO)) if sig is None else sig
+    sig = rng.choice(list(range(0, 21)) + [22, 23, 43, 43, 44] + list(COMBO)) if sig is None else sig
     headers, body, method, items, q = [], None, 'GET', [], ''
     if sig in INT:
         name, bits, signed = INT[sig]
@@ -155,9 +190,9 @@ def mk(rng, sig=None):
         ptys = ['u8']; segs = [seg_int(rng, 8, False), seg_str(rng)]; target = '/m/%s/x/%s' % (segs[0], segs[1])
     else:
         ptys, segs = [], []
-        layout = LAY[COMBO[sig][1]] if sig in COMBO else {15: [('query', False)], 16: [('json', False)], 17: [('json', True)], 18: [('form', False)], 19: [('text', False)], 20: [('query', False), ('json', False)], 23: [('form', True), ('text', True)]}[sig]
+        layout = LAY[COMBO[sig][1]] if sig in COMBO else {15: [('query', False)], 16: [('json', False)], 17: [('json', True)], 18: [('form', False)], 19: [('text', False)], 20: [('query', False), ('json', False)], 23: [('form', True), ('text', True)], 43: [('multi', False)], 44: [('multi', True)]}[sig]
         method = 'GET' if layout == [('query', False)] else 'POST'
-        target = (('/q/u/c%d' if sig < 37 else '/q/w/c%d') if sig in COMBO else '/t/p%d') % sig
+        target = (('/q/u/c%d' if sig < 37 else '/q/w/c%d') if sig in COMBO else '/f/p%d' if sig in (43, 44) else '/t/p%d') % sig
         if sig == 20: ptys = ['u8']; segs = [seg_int(rng, 8, False)]; target += '/' + segs[0]
         if sig in COMBO and COMBO[sig][0]:
             ptys = ['u8', 'String'] if COMBO[sig][0] == 'T2' else ['u8']
@@ -167,8 +202,12 @@ def mk(rng, sig=None):
         ct = None
         if bkind:
             use = rng.choice([bkind, bkind, bkind, rng.choice(['json', 'form', 'text'])])
-            ct = ctype_for(rng, use)
-            if rng.random() < 0.9: body = body_for(rng, rng.choice([use, bkind]))
+            if 'multi' in (use, bkind):
+                body, bnd = multi_body(rng) if rng.random() < 0.85 else (body_for(rng, rng.choice(['json', 'text'])), 'XbX')
+                ct = ctype_for(rng, use, bnd)
+            else:
+                ct = ctype_for(rng, use)
+                if rng.random() < 0.9: body = body_for(rng, rng.choice([use, bkind]))
             if ct is not None: headers.append(['Content-Type', ct])
         if any(k == 'query' for k, _ in layout): q = query_for(rng)
         for k, opt in layout:
